@@ -2161,3 +2161,15 @@ package formula
 //@           invariant[C14] forall k string :: mapHas(keywords, k) == (kw(k) != SK_Unknown && kw(k) < i)
 //@           invariant[C14] forall k string :: mapHas(keywords, k) ==> keywords[k] == kw(k)
 //@           decreases SK_LastKeyword + 1 - i
+
+// The builtin table (C16, C11): the names of the statement, each denoting the function of that
+// name (whose own contract says what it computes). init#1 (runner.go) is proved to store
+// exactly this table; every other function may assume it (nothing else writes innerMap).
+//@ spec builtinName(n string) bool := n == "true" || n == "false" || n == "now" || n == "toDay" || n == "date" || n == "addDate" || n == "year" || n == "month" || n == "day" || n == "hour" || n == "minute" || n == "second" || n == "millSecond" || n == "weekDay" || n == "timeFormat" || n == "useTimezone" || n == "abs" || n == "ceil" || n == "exp" || n == "floor" || n == "ln" || n == "log" || n == "max" || n == "min" || n == "round" || n == "roundBank" || n == "roundCash" || n == "sqrt" || n == "finite" || n == "startWith" || n == "endWith" || n == "contains" || n == "find" || n == "includes" || n == "left" || n == "right" || n == "len" || n == "lower" || n == "upper" || n == "lpad" || n == "rpad" || n == "mid" || n == "replace" || n == "trim" || n == "regexp" || n == "mapToArr" || n == "join" || n == "toString" || n == "toInt" || n == "toFloat"
+//@ spec isBuiltin(k any) bool := isstr(k) && builtinName(sval(k))
+//@ spec builtinVal(k any) any := (sval(k) == "true" ? mkbool(true) : (sval(k) == "false" ? mkbool(false) : (sval(k) == "now" ? fnany(funNow) : (sval(k) == "toDay" ? fnany(funToDay) : (sval(k) == "date" ? fnany(funDate) : (sval(k) == "addDate" ? fnany(funAddDate) : (sval(k) == "year" ? fnany(funYear) : (sval(k) == "month" ? fnany(funMonth) : (sval(k) == "day" ? fnany(funDay) : (sval(k) == "hour" ? fnany(funHour) : (sval(k) == "minute" ? fnany(funMinute) : (sval(k) == "second" ? fnany(funSecond) : (sval(k) == "millSecond" ? fnany(funMillSecond) : (sval(k) == "weekDay" ? fnany(funWeekDay) : (sval(k) == "timeFormat" ? fnany(funTimeFormat) : (sval(k) == "useTimezone" ? fnany(funUseTimezone) : (sval(k) == "abs" ? fnany(funAbs) : (sval(k) == "ceil" ? fnany(funCeil) : (sval(k) == "exp" ? fnany(funExp) : (sval(k) == "floor" ? fnany(funFloor) : (sval(k) == "ln" ? fnany(funLn) : (sval(k) == "log" ? fnany(funLog) : (sval(k) == "max" ? fnany(funMax) : (sval(k) == "min" ? fnany(funMin) : (sval(k) == "round" ? fnany(funRound) : (sval(k) == "roundBank" ? fnany(funRoundBank) : (sval(k) == "roundCash" ? fnany(funRoundCash) : (sval(k) == "sqrt" ? fnany(funSqrt) : (sval(k) == "finite" ? fnany(funFinite) : (sval(k) == "startWith" ? fnany(funStartWith) : (sval(k) == "endWith" ? fnany(funEndWith) : (sval(k) == "contains" ? fnany(funContains) : (sval(k) == "find" ? fnany(funFind) : (sval(k) == "includes" ? fnany(funIncludes) : (sval(k) == "left" ? fnany(funLeft) : (sval(k) == "right" ? fnany(funRight) : (sval(k) == "len" ? fnany(funLen) : (sval(k) == "lower" ? fnany(funLower) : (sval(k) == "upper" ? fnany(funUpper) : (sval(k) == "lpad" ? fnany(funLpad) : (sval(k) == "rpad" ? fnany(funRpad) : (sval(k) == "mid" ? fnany(funMid) : (sval(k) == "replace" ? fnany(funReplace) : (sval(k) == "trim" ? fnany(funTrim) : (sval(k) == "regexp" ? fnany(funRegexp) : (sval(k) == "mapToArr" ? fnany(funMapToArr) : (sval(k) == "join" ? fnany(funJoin) : (sval(k) == "toString" ? fnany(funToString) : (sval(k) == "toInt" ? fnany(funToInt) : (sval(k) == "toFloat" ? fnany(funToFloat) : nil))))))))))))))))))))))))))))))))))))))))))))))))))
+//@ initinv builtinTable by init#1: forall k any :: smHas(innerMap, k) == isBuiltin(k) && (isBuiltin(k) ==> smGet(innerMap, k) == builtinVal(k))
+//@ func init#1
+//@   tags [C16,C11]
+//@   assigns *
+//@   panics never
